@@ -256,6 +256,9 @@ def check_run(runner, progkey, schedule, part):
     return npolls
 
 
+POLL_CAP = 48
+
+
 def explore_program(runner, progkey, max_dev, part):
     """All placements of <= max_dev occurrences over the polls of each run (iterative deepening
     by construction: a schedule with d deviations is extended only at later polls)."""
@@ -263,8 +266,14 @@ def explore_program(runner, progkey, max_dev, part):
     while stack:
         sched = stack.pop()
         npolls = check_run(runner, progkey, sched, part)
+        part.extra['max_polls_of_a_run'] = max(part.extra.get('max_polls_of_a_run', 0), npolls)
         if len(sched) >= max_dev:
             continue
+        if npolls > POLL_CAP:
+            # a run this long (a handler that keeps re-entering) would make the number of placements
+            # explode: occurrences are placed in its first POLL_CAP polls only, and the cap is reported
+            part.extra['runs_longer_than_poll_cap'] = part.extra.get('runs_longer_than_poll_cap', 0) + 1
+            npolls = POLL_CAP
         start = sched[-1] if sched else (0, 'B')    # poll 0 is RUN's own poll (direct mode)
         for poll in range(start[0], npolls - 1):    # the final poll has no following statement
             for who in ('A', 'B'):
@@ -353,11 +362,15 @@ def legs(ctx):
                        + _shards('strig-key', 2, [nop], [nop], 2, 8), work_sched, exhaustive=True,
                        bound='families timer-pen, strig-key: main <= 2, plain handlers; <= 2 occurrences'))
     else:
+        # (main <= 3 x 14 handler bodies x 3 occurrences would be ~70 CPU hours: split into two legs)
+        out.append(Leg('sched-keys-main2-dev3',
+                       _shards('keys', 2, bodies1, [nop, ('B:STOP',)], 3, 4), work_sched, exhaustive=True,
+                       bound='family keys: main <= 2 x 7 bodies A x 2 bodies B; all placements of <= 3 occurrences'))
         out.append(Leg('sched-keys-main3-dev3',
-                       _shards('keys', 3, bodies1, [nop, ('B:STOP',)], 3, 8), work_sched, exhaustive=True,
-                       bound='family keys: main <= 3 x 7 bodies A x 2 bodies B; all placements of <= 3 occurrences'))
+                       _shards('keys', 3, [nop], [nop], 3, 2), work_sched, exhaustive=True,
+                       bound='family keys: main <= 3, plain handlers; all placements of <= 3 occurrences'))
         out.append(Leg('sched-keys-main4-dev2',
-                       _shards('keys', 4, [nop, ('A:ON',), ('A:STOP',), ('ERR',)], [nop], 2, 32), work_sched,
+                       _shards('keys', 4, [nop, ('A:ON',), ('A:STOP',), ('ERR',)], [nop], 2, 16), work_sched,
                        exhaustive=True,
                        bound='family keys: main <= 4 x 4 bodies; all placements of <= 2 occurrences'))
         out.append(Leg('sched-others-main3-dev2',
